@@ -52,6 +52,17 @@ PROPS = {
         ],
         "assumptions": E1_ASSUME,
     },
+    "C17": {
+        "level": "model_checking",
+        "engine": "explore (choice-tree DFS, sequential)",
+        "technique": "exhaustive choice-tree enumeration of listing traversals with interleaved mutations on real client/server sessions (plus bounded enumeration of malformed/stale cursors)",
+        "claim": "for tools, prompts, resources and resource templates x page size 1..3 x all 32 initial subsets of 5 names x every placement of <=2 add/remove/replace mutations in the gaps between page fetches (two in the same gap included): items come in one strictly increasing order, items registered throughout appear exactly once, nothing unregistered is listed, traversal ends with an empty cursor, page size respected; without mutation the exact set is listed and the client iterator yields the same sequence; malformed cursors get -32602 and the server keeps answering; a stale cursor continues after its position",
+        "note": "5 names, page sizes 1..3, <=2 mutations per traversal; sessions are long-lived per (kind,page size), so states are reached from many predecessor states, not only the initial one",
+        "parts": [
+            {"pkg": "mcp", "mode": "plain", "test": "TestVerifC17", "gomaxprocs": 2},
+        ],
+        "assumptions": ["the legacy (2025-06-18) session does not cache list results client-side"],
+    },
     "C20": {
         "level": "model_checking",
         "technique": "explicit-state breadth-first search over operation histories of the real MemoryEventStore with a reference model and private-state invariants checked after every operation",
